@@ -343,7 +343,11 @@ void EntityManager::applyCommandPack(TemporalStorage& storage, size_t begin, siz
     }
     else if (initial_mask != final_mask) {
         const auto location = locations_[entity.id()];
-        archetype.externalMove(entity, getArchetype(location.archetype), location.index, final_mask);
+        auto& prev_archetype = getArchetype(location.archetype);
+        // removing a dependent of a component that stays maps back to the same archetype: nothing to move
+        if (&prev_archetype != &archetype) {
+            archetype.externalMove(entity, prev_archetype, location.index, final_mask);
+        }
     }
 
     auto view = archetype.getElementView(locations_[entity.id()].index);
